@@ -88,7 +88,7 @@ def _elem(draw, idx, depth, tier):
 def _container(draw, depth, tier, base=0):
     kind = draw(st.sampled_from(["list", "tuple", "dict", "call", "list", "dict"] if depth == 0 else
                                 ["list", "tuple", "dict", "call", "call"]))
-    n = draw(st.integers(1, 5 if depth == 0 else 3))
+    n = draw(st.sampled_from([1, 2, 3, 4, 5] if depth == 0 else [1, 2, 3]))
     if kind == "call":
         cls = draw(st.sampled_from(["Box", "Point", "APoint", "NT"]))
         fields = {"Box": ["items", "name", "meta"], "Point": ["x", "y"], "APoint": ["a", "b", "c"], "NT": ["a", "b"]}[cls]
